@@ -1076,6 +1076,95 @@ theorem resolve_refines_dev (p : Params) {o : Orders} (ho : o.Valid) (store : Li
               simp only [extend] at e2
               rw [e1, e2, hclean k, hst2 k]
 
+/-! ### the only failure is `Err(_)` -/
+
+theorem senderPowers_error (p : Params) (fetch : Id → Option Event) : ∀ (X : List Id) (e : Fail),
+    senderPowers p fetch X = .error e → e = .err
+  | [], e, h => by simp [senderPowers] at h
+  | id :: rest, e, h => by
+    unfold senderPowers at h
+    cases hf : fetch id with
+    | none => rw [hf] at h; simp only [] at h; cases h; rfl
+    | some ev =>
+      rw [hf] at h
+      simp only [] at h
+      cases hv : senderPower p fetch ev with
+      | none => rw [hv] at h; simp only [] at h; cases h; rfl
+      | some v =>
+        rw [hv] at h
+        cases hr : senderPowers p fetch rest with
+        | ok m => rw [hr] at h; simp only [] at h; cases h
+        | error x =>
+          rw [hr] at h; simp only [] at h
+          cases h
+          exact senderPowers_error p fetch rest _ hr
+
+theorem iterativeAuthChecks_error (p : Params) (fetch : Id → Option Event) : ∀ (ids : List Id) (st : StateMap)
+    (e : Fail), iterativeAuthChecks p fetch ids st = .error e → e = .err
+  | [], st, e, h => by simp [iterativeAuthChecks] at h
+  | id :: rest, st, e, h => by
+    unfold iterativeAuthChecks at h
+    cases hf : fetch id with
+    | none => rw [hf] at h; simp only [] at h; cases h; rfl
+    | some ev =>
+      rw [hf] at h; simp only [] at h
+      cases hs : ev.stateKey with
+      | none => rw [hs] at h; simp only [] at h; cases h; rfl
+      | some sk =>
+        rw [hs] at h; simp only [] at h
+        split at h
+        · cases h; rfl
+        · cases ht : p.authTypes ev with
+          | none => rw [ht] at h; exact iterativeAuthChecks_error p fetch rest st e h
+          | some tys =>
+            rw [ht] at h; simp only [] at h
+            split at h
+            · exact iterativeAuthChecks_error p fetch rest _ e h
+            · exact iterativeAuthChecks_error p fetch rest st e h
+
+/-- The specification (with or without the F4 deviation) fails only with `Err(_)`. -/
+theorem resolveWith_error (dev : Bool) (p : Params) (store : List Event) (sets : List StateMap)
+    (chains : List (List Id)) (e : Fail) (h : resolveWith dev p store sets chains = .error e) : e = .err := by
+  unfold resolveWith at h
+  simp only [] at h
+  split at h
+  · cases h
+  · cases hro : reversePowerOrdering p (fetchOf store)
+        (powerEventsWithChains p (fetchOf store) (fullConflictedSet (fetchOf store) sets chains)) with
+    | error x =>
+      rw [hro] at h; simp only [] at h; cases h
+      unfold reversePowerOrdering at hro
+      cases hs : senderPowers p (fetchOf store)
+          (powerEventsWithChains p (fetchOf store) (fullConflictedSet (fetchOf store) sets chains)) with
+      | error y => rw [hs] at hro; simp only [] at hro; cases hro; exact senderPowers_error _ _ _ _ hs
+      | ok pls => rw [hs] at hro; cases hro
+    | ok sc =>
+      rw [hro] at h; simp only [] at h
+      cases h1 : iterativeAuthChecks p (fetchOf store) sc (unconflicted sets) with
+      | error x => rw [h1] at h; simp only [] at h; cases h; exact iterativeAuthChecks_error _ _ _ _ _ h1
+      | ok st1 =>
+        rw [h1] at h; simp only [] at h
+        split at h
+        · rename_i x h2; cases h; exact iterativeAuthChecks_error _ _ _ _ _ h2
+        · cases h
+
+/-- **No panic, no runaway loop.** Under `SpecWF`, whatever the iteration orders: if `resolve` fails,
+it fails with a Rust `Err(_)` — neither the `unwrap` in `add_event_and_auth_chain_to_graph`, nor the
+two `expect`s of the sort, nor the `unwrap` of the mainline sort fires, and no `while let` loop
+exceeds its bound. -/
+theorem resolve_error_is_err (p : Params) {o : Orders} (ho : o.Valid) (store : List Event)
+    {sets : List StateMap} {chains : List (List Id)} {c0 : Event} (wf : SpecWF p store sets chains c0)
+    (e : Fail) (h : resolve p o store sets chains = .error e) : e = .err := by
+  have hr := resolve_refines_dev p ho store wf
+  rw [h] at hr
+  cases hs : resolveWith true p store sets chains with
+  | ok m => rw [hs] at hr; exact hr.elim
+  | error e' =>
+    rw [hs] at hr
+    have : e = e' := hr
+    rw [this]
+    exact resolveWith_error true p store sets chains e' hs
+
 /-! ### where F4 cannot show: the deviation-carrying spec is the spec -/
 
 /-- Executable form of `NoF4`. -/
